@@ -754,7 +754,7 @@ func genBad(t *rapid.T) BadCase {
 	if n != len(toks) {
 		panic(fmt.Sprintf("span bookkeeping: %d vs %d for %q", n, len(toks), from))
 	}
-	how := rapid.SampledFrom([]string{"drop_bracket", "swap_closer", "extra_closer", "extra_opener", "drop_operand", "dangling_operator", "leading_operator"}).Draw(t, "how")
+	how := rapid.SampledFrom([]string{"drop_bracket", "swap_closer", "extra_closer", "extra_opener", "drop_operand", "dangling_operator", "leading_operator", "closer_then_opener"}).Draw(t, "how")
 	out := append([]string{}, toks...)
 	switch how {
 	case "drop_bracket", "swap_closer":
@@ -791,6 +791,25 @@ func genBad(t *rapid.T) BadCase {
 	case "extra_opener":
 		i := rapid.IntRange(0, len(toks)-1).Draw(t, "pos")
 		out = append(append(append([]string{}, toks[:i]...), rapid.SampledFrom([]string{"(", "[", "{"}).Draw(t, "op")), toks[i:]...)
+	case "closer_then_opener":
+		// as many closers as openers, but a closer comes first at bracket depth 0: `.a ) | ( .b`, `.a | .b ) (`
+		var zero []int // token boundaries at depth 0 (after token i-1)
+		depth := 0
+		for i, tk := range toks {
+			switch tk {
+			case "(", "[", ".[", "{":
+				depth++
+			case ")", "]", "}":
+				depth--
+			}
+			if depth == 0 {
+				zero = append(zero, i+1)
+			}
+		}
+		i := rapid.SampledFrom(zero).Draw(t, "cpos")
+		j := rapid.IntRange(i, len(toks)).Draw(t, "opos")
+		pair := rapid.SampledFrom([][2]string{{")", "("}, {")", "("}, {"]", "["}, {"}", "{"}}).Draw(t, "pair")
+		out = append(append(append(append(append([]string{}, toks[:i]...), pair[0]), toks[i:j]...), pair[1]), toks[j:]...)
 	case "drop_operand":
 		if len(spans) == 0 {
 			how = "dangling_operator"
